@@ -79,18 +79,19 @@ type callPlan struct {
 }
 
 type e2eEnv struct {
-	rc        *RunCtx
-	s         *simrt.Sim
-	kind      string // adapter | http | nats
-	proto     string // binary | compact | json
-	pf        *frugal.FProtocolFactory
-	tr        frugal.FTransport
-	client    *simsvc.FSimSvcClient
-	client2   *simsvc.FSimSvcClient
-	prov2Spec []mwSpec
-	proc      frugal.FProcessor
-	plans     map[string]*callPlan
-	wire      []wireFrame
+	garbageExpected bool // requests with damaged headers are part of the workload
+	rc              *RunCtx
+	s               *simrt.Sim
+	kind            string // adapter | http | nats
+	proto           string // binary | compact | json
+	pf              *frugal.FProtocolFactory
+	tr              frugal.FTransport
+	client          *simsvc.FSimSvcClient
+	client2         *simsvc.FSimSvcClient
+	prov2Spec       []mwSpec
+	proc            frugal.FProcessor
+	plans           map[string]*callPlan
+	wire            []wireFrame
 	// per transport
 	lst                         *simListener
 	srv                         frugal.FServer
@@ -326,11 +327,17 @@ func (env *e2eEnv) quiet() bool { return env.b == nil || env.b.Pending() == 0 }
 
 type simHandler struct{ env *e2eEnv }
 
+// (e2eEnv.garbageExpected: set by harnesses that inject damaged requests)
+
 var reservedHdr = map[string]bool{"_opid": true, "_cid": true, "_timeout": true}
 
 func (h *simHandler) enter(fctx frugal.FContext, method string, args ...any) (*callPlan, error) {
 	tag, _ := fctx.RequestHeader("tag")
 	p := h.env.plans[tag]
+	if p == nil && h.env.garbageExpected {
+		// the corrupt harness feeds requests whose headers it damaged on purpose
+		return nil, errors.New("unknown tag")
+	}
 	if p == nil {
 		h.env.rc.Violate("C03", "handler-unknown-call", h.env.kind, fmt.Sprintf("%s invoked with unknown tag %q", method, tag))
 		return nil, errors.New("unknown tag")
